@@ -1,44 +1,79 @@
 """C36, DBOS half: the REAL `DBOSIdleReleaseDecorator` (llama_agents/dbos/idle_release.py) over an emulated DBOS base.
 
-What runs unmodified (repository code): DBOSIdleReleaseDecorator with its internal/external run adapters (timer bookkeeping,
-begin_release / TickIdleRelease / _await_and_mark_released, try_begin_resume / _do_resume incl. rebuild from the tick log and
-state carry-over), EventInterceptorDecorator, TickPersistenceDecorator (tick log), MemoryWorkflowStore (handler row, ticks, state
-stores), the workflow engine (control loop, reducer, retry policy, waiters) and BasicRuntime's adapters/queues.  The chain is the
-one `DBOSRuntime.build_server_runtime` builds: IdleRelease(EventInterceptor(TickPersistence(<base>))), everything on the
-virtual-time loop (boot.run_virtual), so the decorator's `asyncio.sleep(idle_timeout)` and its 0.5 s "releasing" poll are
-virtual-time timers.
+Public surface (to be wired into vlib/props/c36.py): `setup()`, `strategy(tier)`, `run_case(case) -> CaseResult`, `RULE`,
+`ASSUMPTIONS`, `FLAGS`, `in_domain(case)`.
 
-EMULATED / TRUSTED (this is the `assumptions` text of the family):
-  * third-party modules `dbos`, `asyncpg`, `sqlalchemy` are the import-only stand-ins of /verif/shims.  The only two DBOS calls
-    the decorator makes are given behaviour per case (attributes set on the stand-in class `dbos.DBOS`, restored afterwards):
-      - `DBOS.retrieve_workflow_async(run_id)` -> a handle whose `get_result()` waits for the most recent base run with that
-        id to end and returns its result / re-raises its error (unknown id: `DBOSNonExistentWorkflowError`);
-      - `DBOS.delete_workflow_async(run_id)` -> forgets that run in the base runtime so the same id can be started again
-        (in DBOS: deletes the workflow's rows).  A delete of a still-running run is recorded and makes the case inconclusive
-        (harness error), it never happened on the unchanged tree.
+What runs unmodified (repository code): DBOSIdleReleaseDecorator with its internal/external run adapters (timer bookkeeping,
+begin_release / TickIdleRelease / _await_and_mark_released, try_begin_resume / the `releasing` poll / _do_resume incl. the rebuild
+from the tick log and the state carry-over), EventInterceptorDecorator, TickPersistenceDecorator (tick log), MemoryWorkflowStore
+(handler row, ticks, state stores), the workflow engine (control loop, reducer, retry policy, waiters) and BasicRuntime's
+adapters/queues.  The chain is the one `DBOSRuntime.build_server_runtime` builds: IdleRelease(EventInterceptor(TickPersistence(
+<base>))), everything on the virtual-time loop (boot.run_virtual), so the decorator's `asyncio.sleep(idle_timeout)` and its 0.5 s
+"releasing" poll are virtual-time timers.
+
+EMULATED / TRUSTED (`ASSUMPTIONS` below says the same, one item per string):
+  * third-party modules `dbos`, `asyncpg`, `sqlalchemy` are the import-only stand-ins of /verif/shims (unchanged).  The only two
+    DBOS calls the decorator makes are given behaviour per case (attributes set on the stand-in class `dbos.DBOS`, restored
+    afterwards):
+      - `DBOS.retrieve_workflow_async(run_id)` -> a handle whose `get_result()` waits for the most recent base run with that id
+        to end and returns its result / re-raises its error (unknown id: `DBOSNonExistentWorkflowError`);
+      - `DBOS.delete_workflow_async(run_id)` -> forgets that run in the base runtime so the same id can be started again (in
+        DBOS: deletes the workflow's rows).  A delete of a still-running run would make the case inconclusive (RuntimeError ->
+        harness error); it never happens on the unchanged tree.
   * the DBOS engine itself (`DBOSRuntime`, `InternalDBOSAdapter`, `ExternalDBOSAdapter`, DBOS.send/recv, journal) is replaced by
-    `EmuBase`, a `BasicRuntime` subclass: asyncio queues instead of DBOS notifications (zero delivery latency), the generated
-    tie-break of genwf.SimRuntime among simultaneously finished workers, and DBOS's *durable per-run-id state store*: the run's
+    `EmuBase`, a `BasicRuntime` subclass: asyncio queues instead of DBOS notifications (ZERO delivery latency), the generated
+    tie-break of genwf.SimRuntime among simultaneously finished workers, and DBOS's durable per-run-id state store: the run's
     state store is `store.create_state_store(run_id)` of the workflow store (the object `_do_resume` reads the carried state
     from), and a `serialized_state` handed to `run_workflow` is written into it before the control loop starts -- what
-    `DBOSRuntime.run_workflow` does with its Sqlite/Postgres state store.  While a finished run has not been deleted its id
-    stays taken (BasicRuntime raises "already exists"; DBOS would hand back the old, finished workflow).
+    `DBOSRuntime.run_workflow` does with its Sqlite/Postgres state store.  (Consequence: dropping the `serialized_state`
+    argument in `_do_resume` is invisible here, as it is with a DB-backed store.)  While a finished run has not been deleted
+    its id stays taken (BasicRuntime raises "already exists"; DBOS would hand back the old, finished workflow).
   * `RunLifecycleLock` is an in-memory implementation of the documented state machine (create -> active; begin_release: CAS
     active->releasing; complete_release: releasing->released; try_begin_resume: None for missing/active, released->active returns
-    `released`, releasing returns `releasing` unless older than crash_timeout_seconds).  The Postgres/SQLite locks are not run
-    here (C26 runs the SQLite one).  **The harness calls `lifecycle.create(run_id)` before starting the run**: nothing in
-    `llama_agents.dbos` ever creates the row (DESIGN.md section 5 item 16), without it no release can happen.
-  * the handler row is inserted by the harness (`PersistentHandler(status="running", run_id=...)`), as `_WorkflowService`
-    does; journal_crud is None (no DBOS journal here).
+    `released`, `releasing` returns `releasing` unless older than crash_timeout_seconds).  All calls are instantaneous except
+    that the releasing->released write takes the generated `release_takes` virtual seconds (so that sends can meet a run in
+    state `releasing`).  The Postgres/SQLite locks are not run here (C26 runs the SQLite one).  THE HARNESS CALLS
+    `lifecycle.create(run_id)` BEFORE STARTING THE RUN: nothing in `llama_agents.dbos` ever creates the row (DESIGN.md section 5
+    item 16); without it no release can happen at all.
+  * the handler row is inserted by the harness (`PersistentHandler(status="running", run_id=...)`), as `_WorkflowService` does;
+    `journal_crud` is None (no DBOS journal here).
   * instants: VClock; `datetime.now` of idle_release / lifecycle / the stores reads the virtual clock.  All generated durations
-    are dyadic rationals so that "at the deadline" is the same loop instant as the decorator's timer.
+    are dyadic rationals, so instants that are meant to coincide do coincide exactly.  One process, one replica.
 
-DOMAIN (restrictions, each behind a named flag in `FLAGS`; see the final notes of the module for why):
-  * multi_cycle=False      at most ONE release/resume cycle per run (at most one gap reaches the release deadline).
-  * exact_deadline=False   no send at exactly the instant the release timer fires (sends 2^-10 s and 0.25 s before / after are
-                           generated).
-  * wake_after_release=False  an internal timed wake-up (retry back-off, waiter timeout) is always shorter than idle_timeout: it
-                           fires while the run is idle and in memory, never while it is released (that is C14's subject).
+DOMAIN RESTRICTIONS.  Each is a named switch in `FLAGS` (all False = the claimed domain; C36_DBOS_FLAGS="a,b" switches them on
+for reproducing, ./check never does).  Every one of them hides behaviour of the UNCHANGED repository code that violates the
+oracle and does not depend on how DBOS is emulated (reported to the main session; minimal cases, all with workers=1, ties=[],
+release_takes=0):
+  * multi_cycle            at most ONE release/resume cycle per run.  `_do_resume` folds the pending tick into the rebuilt state
+                           (`rebuild_state_from_ticks(init_state, [pending_tick])`) but the tick never passes `on_tick`, so it
+                           is missing from the tick log; the step result that follows is logged.  The next resume replays the log
+                           and raises `ValueError: Worker 0 not found in in_progress` out of `send_event` (lifecycle already
+                           flipped to active, no run in memory).  {"total":2,"idle_timeout":1.0,"gaps":[1.5,1.5],"work":[0,0],
+                           "wake":null} -> send_raised.
+  * wake_step_outlasts_timer   the release timer is cancelled only by ticks that arrive through `wait_receive`.  A step started by
+                           an internal timed wake-up (retry back-off) while the run is idle does not cancel it: if that step is
+                           still running idle_timeout after the EARLIER idle announcement, the run is released in the middle of
+                           it (step cancelled, handler stamped idle, the reply is not processed).  {"total":2,"idle_timeout":1.0,
+                           "gaps":[0.25,0.25],"work":[3,0],"wake":{"kind":"retry","delay":0.25,"at":0}} -> released_while_busy.
+                           Domain: retry delay + duration of the retried step < idle_timeout.
+  * send_ties_with_wakeup  same root cause, other order: an external tick is RECEIVED (timer cancelled) while the loop is about to
+                           process an internal wake-up; the wake-up's step ends, the reducer sees empty queues (the received tick
+                           is not folded in yet), announces idleness and re-arms the timer; the received event's step then runs
+                           with a live timer.  Needs the send at the very instant a wake-up is due, so the driver postpones such
+                           a send by 2^-10 s.  {"total":2,"idle_timeout":2.0,"gaps":[0.5,0.25],"work":[12,12],
+                           "wake":{"kind":"waiter","delay":0.25,"at":0}} -> released_while_busy.
+  * exact_deadline         no send at exactly the instant the release timer fires.  The send finds the lifecycle `active` and
+                           hands the event to the old run, the timer's CAS active->releasing succeeds all the same (nothing
+                           re-checks idleness), TickIdleRelease follows the event into the mailbox: the event's step is started
+                           and cancelled, the run is released with the event unprocessed and stays so until some later event
+                           reloads it.  {"total":2,"idle_timeout":2.0,"gaps":["at",0.5],"work":[1,0],"wake":null} ->
+                           replies_lost_or_duplicated (reply 0 accepted, never processed).  Sends 2^-10 s and 0.25 s before and
+                           after the deadline ARE generated.
+  * wake_after_release     a timed wake-up is always due BEFORE the release (delay < idle_timeout).  A retry back-off / waiter
+                           timeout that is still pending when idle_timeout expires lives only in the control loop's wake-up heap:
+                           the release drops it and the reload does not re-arm it (C14's subject, not C36's).
+                           {"total":2,"idle_timeout":2.0,"gaps":[0.5,"just_after"],"work":[0,0],"wake":{"kind":"retry",
+                           "delay":3.0,"at":0}} -> reply 0 never processed.
 """
 
 from __future__ import annotations
@@ -67,7 +102,47 @@ FLAGS = {"multi_cycle": False, "exact_deadline": False, "wake_after_release": Fa
 for _f in filter(None, os.environ.get("C36_DBOS_FLAGS", "").split(",")):
     FLAGS[_f.strip()] = True
 
+RULE = (
+    "DBOS half: case = a human-in-the-loop run driven through the REAL DBOSIdleReleaseDecorator (chain of DBOSRuntime."
+    "build_server_runtime over an emulated DBOS base, in-memory lifecycle lock, MemoryWorkflowStore) that idles between external "
+    "events: `total` (2-5) Reply events are sent through the decorator's external adapter, each a generated time after the END of "
+    "the run's last activity (a number on either side of idle_timeout I in {1,2,5,10}, or 2^-10 s / 0.25 s before / after the "
+    "release deadline), each step working a generated time (0..12 s, also longer than I); optionally one step fails once and is "
+    "retried after a back-off delay, or a step parks on wait_for_event(timeout=...) and the timeout fires while the run is idle "
+    "(internal timed wake-ups: a second idle announcement with no received tick in between); the lock's releasing->released write "
+    "takes 0/0.5/1 s. Oracle (exact instants, virtual time): (a) no release starts (CAS active->releasing) while a step body is "
+    "executing or less than I after the last activity (step start/end, send); (b) every quiet interval longer than I of a run "
+    "that is in memory has a release started exactly I after its start, the run leaves memory with IdleReleasedEvent, the "
+    "lifecycle becomes `released` and the handler row carries idle_since; (c) a send that finds the run releasing/released "
+    "returns with the run restarted under the same id, lifecycle active, idle_since cleared, and its reply is processed; at the "
+    "end every reply was processed exactly once, in order, each step saw the replies recorded before it (state carried) and the "
+    "run completed with the full list; (d) no send raises; an armed timed wake-up fires when due. Non-trivial = at least one "
+    "release followed by a reload that continued the run to completion."
+)
+ASSUMPTIONS = [
+    "DBOS half runs the real DBOSIdleReleaseDecorator / EventInterceptorDecorator / TickPersistenceDecorator / MemoryWorkflowStore / control loop; "
+    "`dbos`, `asyncpg`, `sqlalchemy` are the import-only stand-ins of /verif/shims",
+    "EMULATED: DBOS.retrieve_workflow_async(run_id).get_result() = wait for the latest base run with that id and return its result; "
+    "DBOS.delete_workflow_async(run_id) = forget that run so the id can be started again (set per case on the stand-in class dbos.DBOS)",
+    "EMULATED: the DBOS engine (DBOSRuntime, its adapters, send/recv, journal) is a BasicRuntime subclass: asyncio queues with zero "
+    "delivery latency, generated tie-break among simultaneously finished workers, and a durable per-run-id state store "
+    "(store.create_state_store(run_id); a serialized_state passed to run_workflow is written into it before the loop starts)",
+    "EMULATED: RunLifecycleLock is an in-memory implementation of the documented state machine; all calls instantaneous except a "
+    "generated duration of the releasing->released write; the Postgres/SQLite locks are not run here",
+    "the harness calls RunLifecycleLock.create(run_id) and inserts the handler row before starting the run (nothing in llama_agents.dbos "
+    "creates the lifecycle row; without it no release happens); journal_crud=None; one process, one replica",
+    "restricted domain (vlib/dbos_idle.FLAGS, all off): one release/resume cycle per run (a second resume raises 'Worker 0 not found in "
+    "in_progress': the pending tick is never appended to the tick log); no send at exactly the release deadline or at the instant a "
+    "timed wake-up is due; a timed wake-up fires before the release and the step it starts ends before the earlier release timer "
+    "(the timer is only cancelled by received ticks) -- behaviour of the unchanged code outside this domain is reported, not claimed",
+]
+
 _m: dict[str, Any] = {}
+
+
+def setup() -> None:
+    M()
+
 
 
 def M():
@@ -409,6 +484,25 @@ def strategy(tier: str = "quick"):
     return case()
 
 
+def in_domain(case: dict) -> str | None:
+    """None if the case lies in the claimed domain, else the name of the FLAGS switch that would admit it."""
+    I = float(case["idle_timeout"])
+    gaps = case["gaps"]
+    if not FLAGS["exact_deadline"] and any(g == "at" or (isinstance(g, (int, float)) and float(g) == I) for g in gaps):
+        return "exact_deadline"
+    reach = [g for g in gaps if g in ("at", "just_after", "after") or (isinstance(g, (int, float)) and float(g) >= I)]
+    if not FLAGS["multi_cycle"] and len(reach) > 1:
+        return "multi_cycle"
+    w = case.get("wake")
+    if w:
+        woken = case["work"][w["at"]] if (w["kind"] == "retry" and w["at"] >= 0) else 0
+        if w["delay"] >= I and not FLAGS["wake_after_release"]:
+            return "wake_after_release"
+        if w["delay"] < I <= w["delay"] + woken and not FLAGS["wake_step_outlasts_timer"]:
+            return "wake_step_outlasts_timer"
+    return None
+
+
 # ---------------------------------------------------------------------------------------------------------- run
 
 
@@ -575,6 +669,9 @@ def run_case(case: dict) -> CaseResult:
     case = json.loads(json.dumps(case))
     r = CaseResult()
     M()
+    if in_domain(case) is not None:
+        r.skipped = True  # outside the claimed domain (e.g. a hand-written replay); never produced by strategy()
+        return r
     I = float(case["idle_timeout"])
     total = case["total"]
     L = float(case.get("release_takes", 0) or 0)
